@@ -118,6 +118,25 @@ def make_modes(ctx):
         m.append(Mode("compress-multi-vv", ["-vv"], [F("w%d" % i, "w%d.xz" % i, small[i], small[i]) for i in range(3)]))
         m.append(Mode("decompress-stdout-multi-v", ["-dc", "-v"], [dict(F("q1.xz", None, comp[:27], plain), valid=False),
                                                                   F("q2.xz", None, xzc(exact, preset=1), exact)], direction="d", stdout=True))
+    # the verdict (exit status, handling of the files) must not depend on the verbosity: the failure scenarios again with
+    # -qq (nothing is printed), -q, XZ_OPT=-qq and -v; warnings still give 2 with -q / -qq
+    m.append(Mode("compress-qq", ["-qq"], [F("a.txt", "a.txt.xz", small[0], small[0])]))
+    m.append(Mode("decompress-truncated-qq", ["-d", "-qq"], [F("a.xz", "a", comp[:len(comp) * 2 // 3], plain)], direction="d", valid=False))
+    m.append(Mode("compress-existing-target-qq", ["-qq"], [F("a.txt", "a.txt.xz", small[1], small[1])], pre_target=True))
+    m.append(Mode("decompress-xzopt-qq", ["-d"], [F("a.xz", "a", xzc(small[2], preset=1), small[2])], direction="d", env={"XZ_OPT": "-qq"}))
+    m.append(Mode("decompress-garbage-xzopt-qq", ["-d"], [F("a.xz", "a", plain[:B + 77], plain)], direction="d", valid=False, init_ok=False,
+                  env={"XZ_OPT": "-qq"}))
+    m.append(Mode("hardlinked-source-q", ["-q"], [F("a.txt", "a.txt.xz", small[1], small[1])], skip=True, hardlink=True))
+    m.append(Mode("hardlinked-source-qq", ["-qq"], [F("a.txt", "a.txt.xz", small[1], small[1])], skip=True, hardlink=True))
+    m.append(Mode("compress-stdout-qq", ["-c", "-qq"], [F("a.txt", None, small[0], small[0])], stdout=True))
+    m.append(Mode("decompress-truncated-v", ["-d", "-v"], [F("a.xz", "a", comp[:len(comp) * 2 // 3], plain)], direction="d", valid=False))
+    if not quick:
+        m.append(Mode("decompress-qq", ["-d", "-qq"], [F("a.xz", "a", comp, plain)], direction="d"))
+        m.append(Mode("compress-q", ["-q"], [F("a.txt", "a.txt.xz", small[0], small[0])]))
+        m.append(Mode("compress-xzdefaults-qq", [], [F("a.txt", "a.txt.xz", small[0], small[0])], env={"XZ_DEFAULTS": "-qq"}))
+        m.append(Mode("compress-force-existing-qq", ["-f", "-qq"], [F("a.txt", "a.txt.xz", small[2], small[2])], force=True, pre_target=True))
+        m.append(Mode("compress-stdout-T4-two", ["-c"], [F("x1", None, small[0], small[0]), F("x2", None, small[1], small[1])], stdout=True,
+                      threads="-T4", lifted=True))
     # invalid input whose valid part ends EXACTLY on an 8 KiB read boundary (avail_in == 0 and not yet EOF when
     # LZMA_STREAM_END arrives: only the extra one-byte io_read() of coder_normal() sees the trailing bytes)
     mk_alone = lambda d: lzma.compress(d, format=lzma.FORMAT_ALONE, preset=1)
@@ -208,6 +227,13 @@ def enumerate_plans(ctx, mode, ref_events, rng):
                 # (with -c/-t/stdin xz runs in its strict sandbox, where the interposer cannot act as another process)
                 if mode.file_dest and k > first_src_open:
                     plans.append(Plan(move=(k, "s"), tag="foreign-replaces-source"))
+    if mode.stdout or mode.stdin:
+        # every write succeeds, but the FINAL close of standard output (fclose(stdout) in tuklib_exit) fails
+        plans.append(Plan(close_out=5, tag="close-stdout-fails"))
+        plans.append(Plan(close_out=28, tag="close-stdout-fails"))
+        if flat:
+            # ... also after an earlier warning-free partial failure: a failing read keeps status 1
+            plans.append(Plan(faults={flat[min(len(flat) - 1, 3)]["k"]: ("E", 5)}, close_out=5, tag="close-stdout-fails"))
     return plans
 
 
@@ -344,6 +370,8 @@ def direct_oracle(mode, plan, res, ref_events):
             bad.append("%s: source removed although it must be kept (-k/-c/-t)" % f["src"])
         if mode.skip and (not src_ok or own is not None):
             bad.append("%s: a skipped source was touched" % f["src"])
+        if mode.skip and not crashed and not signalled and not inj and rc != 2:
+            bad.append("%s: skipped with a warning, yet the exit status is %s instead of 2" % (f["src"], rc))
         if not src_ok:
             any_removed = True
         # a fault that hit another file of the same invocation must not keep this one from being converted
@@ -391,6 +419,12 @@ def direct_oracle(mode, plan, res, ref_events):
     if not mode.valid and not crashed:
         if rc in (0, 2) or any_removed:
             bad.append("invalid input: exit status %s, source removed: %s" % (rc, any_removed))
+    # the exit path: a failing close of standard output must give a non-zero status and (unless -qq) a message
+    if plan.close_out and not crashed and not signalled:
+        if rc in (0, 2):
+            bad.append("close(stdout) failed with errno %d at exit, yet the exit status is %s" % (plan.close_out, rc))
+        elif not res["stderr"].strip() and "-qq" not in mode.args and "-qq" not in mode.env.get("XZ_OPT", ""):
+            bad.append("close(stdout) failed at exit and xz printed no message")
     # R6: a delivered signal ends the process by that signal
     if signalled and not crashed and psig and rc != -psig[1]:
         bad.append("signal %d was delivered but xz ended with %s" % (psig[1], rc))
@@ -549,8 +583,73 @@ def locate(obs_ops, j, ops):
     return min(j, len(ops) - 1)
 
 
+def exit_path_scenarios(ctx, xz):
+    """The exit path of src/common/tuklib_exit.c for every tool that uses it, judged directly (no model): standard
+    output is /dev/full (buffered stdio output cannot be flushed) or a regular file whose FINAL close fails (seccomp filter
+    installed by the launcher; a control run on /bin/cat shows that the injector works). Expected: exit status non-zero
+    and a message on stderr (no message with -qq)."""
+    import subprocess
+    bd = os.path.dirname(xz)
+    d = os.path.join(L.scratch_root(), "exitpath")
+    shutil.rmtree(d, ignore_errors=True)
+    os.makedirs(d)
+    data = gen_text(ctx.rng, 30000)
+    for nm, blob in (("p.txt", data), ("p2.txt", data[::-1]), ("p.xz", lzma.compress(data)),
+                     ("p.lzma", lzma.compress(data, format=lzma.FORMAT_ALONE))):
+        with open(os.path.join(d, nm), "wb") as fh:
+            fh.write(blob)
+    env = {"PATH": "/usr/bin:/bin", "LC_ALL": "C"}
+
+    def run1(argv, how):
+        launch = [L.LAUNCH[0]] + (["-c", "5"] if how == "closefail" else []) + ["--"] + argv
+        out = open("/dev/full" if how == "full" else os.path.join(d, "_o"), "wb")
+        try:
+            p = subprocess.run(launch, cwd=d, env=env, stdin=subprocess.DEVNULL, stdout=out, stderr=subprocess.PIPE, timeout=60)
+            return p.returncode, p.stderr.decode("utf-8", "replace")
+        except subprocess.TimeoutExpired:
+            return "timeout", ""
+        finally:
+            out.close()
+
+    rc, err = run1(["/bin/cat", "p.txt"], "closefail")
+    injector = rc not in (0, 124, 126) and rc != "timeout"
+    ctx.count("exit-path: close(stdout) injector (seccomp) works" if injector else "exit-path: close(stdout) NOT exercised (seccomp unavailable)")
+    T = lambda t: os.path.join(bd, t)
+    sc = [("xz -l", [T("xz"), "-l", "p.xz"]), ("xz -lvv", [T("xz"), "-lvv", "p.xz"]), ("xz -l --robot", [T("xz"), "-l", "--robot", "p.xz"]),
+          ("xz --version", [T("xz"), "--version"]), ("xz --help", [T("xz"), "--help"]), ("xz --long-help", [T("xz"), "--long-help"]),
+          ("xz --info-memory", [T("xz"), "--info-memory"]), ("xz -c", [T("xz"), "-T1", "-c", "p.txt"]),
+          ("xz -dc", [T("xz"), "-dc", "p.xz"]), ("xz -T4 -c two files", [T("xz"), "-T4", "-c", "p.txt", "p2.txt"]),
+          ("xz -qq -c", [T("xz"), "-qq", "-c", "p.txt"]), ("xz -q -c", [T("xz"), "-q", "-c", "p.txt"]), ("xz -v -c", [T("xz"), "-v", "-c", "p.txt"]),
+          ("xzdec", [T("xzdec"), "p.xz"]), ("xzdec --version", [T("xzdec"), "--version"]), ("lzmadec", [T("lzmadec"), "p.lzma"]),
+          ("lzmainfo", [T("lzmainfo"), "p.lzma"]), ("lzmainfo --version", [T("lzmainfo"), "--version"])]
+    nbad = 0
+    for name, argv in sc:
+        if not os.path.exists(argv[0]):
+            continue
+        for how in ("full", "closefail"):
+            if how == "closefail" and (not injector or name in ("xz --version", "xz --help", "xz --long-help", "xz --info-memory",
+                                                                  "xzdec --version", "lzmainfo --version")) and not injector:
+                continue
+            rc, err = run1(argv, how)
+            ctx.case(("exit-path", name, how), nontrivial=True)
+            ctx.count("exit-path:" + how)
+            silent = "-qq" in argv
+            why = None
+            if rc in (0, 2):
+                why = "standard output could not be written/closed (%s), yet the exit status is %s" % (how, rc)
+            elif not silent and not err.strip():
+                why = "standard output could not be written/closed (%s) and nothing was printed on stderr" % how
+            if why and nbad < 3:
+                nbad += 1
+                ctx.violation("exit-path-%s-%s" % (name, how), {"kind": "exit path (tuklib_exit): failure of standard output not reported",
+                              "exit_path": {"name": name, "argv": [os.path.basename(argv[0])] + argv[1:], "how": how}, "rc": rc, "stderr": err[-300:],
+                              "violated": [why], "how_to_replay": "./check C17 --replay <this file>"}, True)
+    shutil.rmtree(d, ignore_errors=True)
+    ctx.cov["exit_path"] = {"scenarios": len(sc), "injector_works": injector, "violations": nbad}
+
+
 def replay_dict(mode, plan, res, extra):
-    d = {"mode": mode.name, "argv": res["argv"], "plan": plan.env(), "plan_tag": plan.tag, "rc": res["rc"], "stderr": res["stderr"],
+    d = {"mode": mode.name, "argv": res["argv"], "plan": plan.env(), "close_out": plan.close_out, "plan_tag": plan.tag, "rc": res["rc"], "stderr": res["stderr"],
          "syscalls": res["log"], "files_after": {k: {"size": len(v[0]), "head": v[0][:40].hex()} for k, v in res["files"].items()},
          "how_to_replay": "./check C17 --replay <this file>   (re-runs xz with C17_PLAN under the interposer, same seed/tier)"}
     d.update(extra)
@@ -602,6 +701,7 @@ def run(ctx):
                     cases.append((mode, Plan(faults={k1: ("E", rng.choice((5, 28, 4, 11))), k2: ("E", rng.choice((5, 13, 4)))}, tag="double-fault")))
                 else:
                     cases.append((mode, Plan(faults={k1: ("E", rng.choice((5, 4, 11)))}, sig=(k2, rng.choice([x for x in L.SIGS if x != mode.ignored_sig]), False), tag="fault+signal")))
+    exit_path_scenarios(ctx, xz)
     ctx.log("%d modes, %d runs of xz" % (len(modes), len(cases)))
     results = vlib.par_map(lambda mp: L.run_case(xz, so, mp[0], mp[1]), cases)
     # direct oracle + model lines
@@ -621,7 +721,7 @@ def run(ctx):
         for r in fired:
             key = "fired:%s@%s" % (plan.tag, "crash" if r["op"] == "CRASH" else r["op"])
             fired_by_kind[key] = fired_by_kind.get(key, 0) + 1
-        ctx.case((mode.name, plan.env()), nontrivial=bool(fired),
+        ctx.case((mode.name, plan.desc()), nontrivial=bool(fired) or bool(plan.close_out),
                  sample={"mode": mode.name, "plan": plan.desc(), "rc": res["rc"], "calls": len(res["log"])} if ci % 1499 == 7 else None)
         ctx.count("plan:" + plan.tag)
         bad = direct_oracle(mode, plan, res, ref["events"])
@@ -709,8 +809,18 @@ def replay(ctx, path):
     if pr is None:
         return 2
     xz, so = pr
+    if "exit_path" in r:
+        exit_path_scenarios(ctx2, xz)
+        shutil.rmtree(L.scratch_root(), ignore_errors=True)
+        hit = [p for p, _ in ctx2.violations]
+        print("exit-path scenarios re-run; failing:", len(hit))
+        if hit:
+            print("VIOLATION property=C17 replay=%s" % path)
+            return 1
+        print("replay passes")
+        return 0
     mode = next(m for m in make_modes(ctx2) if m.name == r["mode"])
-    plan = Plan(tag=r.get("plan_tag", ""))
+    plan = Plan(tag=r.get("plan_tag", ""), close_out=r.get("close_out"))
     for ent in filter(None, r["plan"].split(",")):
         k, a = ent.split(":")
         k = int(k)
